@@ -458,12 +458,52 @@ def _target_names(t):
     return []
 
 
+NODE_FN = {}          # id(expression node) -> rules.Fn of the function it belongs to (filled by rules.Fn)
+
+
+class MultiNF(tuple):
+    """Normal form of a code expression together with its other readings (local helper lambdas applied;
+    locals replaced by their unique reaching definition).  Equal to a normal form when any reading is:
+    a rule that compares code with a documented expression then accepts temporaries the code introduced
+    or removed.  As a tuple it is the reading as written."""
+    def __new__(cls, plain, alts):
+        o = tuple.__new__(cls, plain)
+        o.alts = tuple(alts)
+        return o
+
+    def readings(self):
+        return (tuple(self),) + self.alts
+
+    def __eq__(self, other):
+        mine = self.readings()
+        theirs = other.readings() if isinstance(other, MultiNF) else (other,)
+        return any(tuple.__eq__(a, b) if isinstance(a, tuple) and isinstance(b, tuple) else a == b for a in mine for b in theirs)
+
+    def __ne__(self, other):
+        return not self.__eq__(other)
+
+    def __hash__(self):
+        return tuple.__hash__(self)
+
+
 def norm(expr, env=None, resolver=None, **kw):
     if expr is None:
         return ('absent',)          # e.g. a keyword argument that the call does not pass
     if isinstance(expr, str):
         expr = ast.parse(expr, mode='eval').body
-    return Normalizer(env, resolver, **kw).n(expr)
+    plain = Normalizer(env, resolver, **kw).n(expr)
+    fn = NODE_FN.get(id(expr)) if resolver is None else None
+    if fn is None or not isinstance(plain, tuple):
+        return plain
+    alts = []
+    for only_l in (True, False):
+        try:
+            r = Normalizer(env, fn.resolver(expr, only_lambdas=only_l), **kw).n(expr)
+        except Exception:
+            continue
+        if isinstance(r, tuple) and r != plain and '#phi' not in repr(r) and r not in alts:
+            alts.append(r)
+    return MultiNF(plain, alts) if alts else plain
 
 
 def alpha_equal(a, b, rename_a=None, rename_b=None):
